@@ -136,21 +136,29 @@ def build(ep, cls, rng):
         b = q_from_float(rng.standard_normal((m + 1 if mis else m, 1, 4)))
         prec = "left_lu" if ep.endswith("left_lu") else None
         return (lambda: sv.QGMRESSolver(tol=1e-8, preconditioner=prec).solve(A, b)), [A, b]
-    if ep == "tensor_unfold":
+    if ep in ("quaternion_modulus", "quaternion_triu", "quaternion_tril"):
+        return (lambda: getattr(L.LU, ep)(A)), [A]
+    if ep == "normQsparse":
+        planes = [np.ascontiguousarray(F[..., c]).copy() for c in range(4)]
+        return (lambda: u.normQsparse(*planes, "nuc-like" if opt_bad else None)), planes
+    if ep.startswith("tensor_unfold"):
+        mode = {"tensor_unfold": 1, "tensor_unfold_mode0": 0, "tensor_unfold_mode2": 2}[ep]
         if cls == "not_order3":
             T3 = q_from_float(F)
         elif cls in ("real_dtype", "complex_dtype"):
             T3 = np.ones((2, 3, 2))
         else:
             T3 = quaternion.as_quat_array(rng.standard_normal((m, n, 2, 4)))
-        return (lambda: t.tensor_unfold(T3, 3 if opt_bad else 1)), [T3]
-    if ep == "tensor_fold":
-        shape = (m + 1, n + 1, 2)        # distinct dims so that a wrong 2-D shape with the right count exists
+        return (lambda: t.tensor_unfold(T3, (3 if mode else -1) if opt_bad else mode)), [T3]
+    if ep.startswith("tensor_fold"):
+        mode = {"tensor_fold": 1, "tensor_fold_mode0": 0, "tensor_fold_mode2": 2}[ep]
+        shape = (m + 1, n + 1, n + 3)    # distinct dims so that a wrong 2-D shape with the right count exists
         T3 = quaternion.as_quat_array(rng.standard_normal(shape + (4,)))
-        M = t.tensor_unfold(T3, 1)
+        M = t.tensor_unfold(T3, mode)
         if mis:
-            M = t.tensor_unfold(T3, 0) if (M.shape != t.tensor_unfold(T3, 0).shape) else M.T.copy()   # same element count, wrong shape
-        return (lambda: t.tensor_fold(M, 7 if opt_bad else 1, shape)), [M]
+            other = t.tensor_unfold(T3, (mode + 1) % 3)
+            M = other if M.shape != other.shape else M.T.copy()   # same element count, wrong shape
+        return (lambda: t.tensor_fold(M, 7 if opt_bad else mode, shape)), [M]
     img = rng.random((max(m, 2), max(n, 2), 4))
     psf = np.array([[0.25, 0.5, 0.25]]) if img.shape[1] >= 3 else np.array([[1.0]])
     if ep == "apply_blur_fft":
